@@ -96,6 +96,10 @@ fn apply(module: &mut Module, e: &Value) -> Result<(), String> {
                                 _ => {
                                     let mut a = Annotation::new();
                                     a.annotation_label = Some(AnnotationLabel::new("added through the API".to_string()));
+                                    let mut t = AnnotationText::new();
+                                    t.annotation_text_list.push("first line".to_string());
+                                    t.annotation_text_list.push("second line".to_string());
+                                    a.annotation_text = Some(t);
                                     x.annotation.push(a);
                                 }
                             }
@@ -109,6 +113,20 @@ fn apply(module: &mut Module, e: &Value) -> Result<(), String> {
                 "MEASUREMENT" => edit!(measurement),
                 "CHARACTERISTIC" => edit!(characteristic),
                 other => Err(format!("{op}: kind {other}")),
+            }
+        }
+        "append_member" => {
+            // one more name at the end of a member list (created if the group has none)
+            let v = e["value"].as_str().unwrap_or("").to_string();
+            match module.group.get_mut(name) {
+                Some(g) => {
+                    if g.ref_measurement.is_none() {
+                        g.ref_measurement = Some(RefMeasurement::new());
+                    }
+                    g.ref_measurement.as_mut().unwrap().identifier_list.push(v);
+                    Ok(())
+                }
+                None => Err(format!("no GROUP {name}")),
             }
         }
         other => Err(format!("unknown op {other}")),
